@@ -35,6 +35,7 @@ type Outcome struct {
 	openAtErr  bool   // Serve entered sendError with the output open and nobody in between
 	cause      string // why Serve left its loop, as far as the scheduler knows
 	served     bool
+	exitSeen, passedAtExit bool // Serve left its loop; the close deadline in force had passed by then
 }
 
 const keyStateLock = "C10/close/deadlock:state-lock-held-across-write"
@@ -66,8 +67,11 @@ type forced struct {
 	stateHeld bool
 	pending   []int // peer events written but not yet read by Serve (actor indices)
 	rdExpired bool
-	armed     bool
-	armedAt   time.Time
+	// the close deadline: the SetCloseDeadline call (actor) in force, whether its
+	// deadline has passed, and the real deadlines of the calls that have a timer
+	inForce int
+	passed  bool
+	shortAt map[int]time.Time
 	serve     int
 	cur       *Pev
 	closers   int
@@ -79,9 +83,24 @@ func (f *forced) problem(key, what string) {
 	f.o.Problems = append(f.o.Problems, Problem{key, what})
 }
 
-func (f *forced) hasTimerLeft() bool {
-	for i, a := range f.sc.Actors {
-		if a.Kind == "timer" && f.st[i].status == "new" {
+// timerFor: the setdeadline actor a timer belongs to (older scenario files
+// have no index: the first SetCloseDeadline call with a time in the future).
+func timerFor(sc *Scenario, t int) int {
+	a := sc.Actors[t]
+	if a.For >= 0 && a.For < len(sc.Actors) && sc.Actors[a.For].Kind == "setdeadline" {
+		return a.For
+	}
+	for i, b := range sc.Actors {
+		if b.Kind == "setdeadline" && !b.Past && !b.Zero {
+			return i
+		}
+	}
+	return -1
+}
+
+func (f *forced) hasTimer(i int) bool {
+	for t, a := range f.sc.Actors {
+		if a.Kind == "timer" && timerFor(f.sc, t) == i {
 			return true
 		}
 	}
@@ -113,7 +132,8 @@ func (f *forced) enabled(i int) bool {
 		case "probe":
 			return !f.stateHeld && f.r.s.State()&xmpp.InputStreamClosed != 0
 		case "timer":
-			return f.armed
+			j := timerFor(f.sc, i)
+			return j >= 0 && f.st[j].status == "done"
 		}
 	}
 	return true
@@ -159,11 +179,16 @@ func (f *forced) start(i int) {
 	default:
 		dl := time.Now().Add(time.Hour)
 		if a.Kind == "setdeadline" {
-			if a.Past {
+			switch {
+			case a.Past:
 				dl = time.Now().Add(-time.Second)
-			} else if f.hasTimerLeft() {
+			case a.Zero:
+				dl = time.Time{}
+			case f.hasTimer(i):
+				// a short real deadline; the others are so far away that they
+				// never pass within a scenario
 				dl = time.Now().Add(realDeadline)
-				f.armedAt = dl
+				f.shortAt[i] = dl
 			}
 		}
 		f.c.spawn(i, func() {
@@ -280,7 +305,10 @@ func (f *forced) arrived(i int, e event) {
 				if f.o.cause == "" {
 					f.o.cause = "ctx"
 				}
-			case "senderror.locked":
+			}
+			if (e.point == "senderror.enter" || e.point == "closeinput.enter") && !f.o.exitSeen {
+				// Serve has just left its loop: had the deadline in force passed?
+				f.o.exitSeen, f.o.passedAtExit = true, f.passed
 			}
 		}
 	}
@@ -394,17 +422,26 @@ func (f *forced) advance(i int) {
 		f.serveWakes()
 		return
 	case "timer":
-		if time.Now().After(f.armedAt.Add(-30 * time.Millisecond)) {
+		j := timerFor(f.sc, i)
+		at := f.shortAt[j]
+		inForce := f.inForce == j && !f.passed
+		if inForce && time.Now().After(at.Add(-30*time.Millisecond)) {
 			f.o.Invalid = "the real deadline passed before the schedule reached the timer step"
 			f.aborted = true
 			return
 		}
-		time.Sleep(time.Until(f.armedAt) + 20*time.Millisecond)
+		// real time passes the deadline that call j asked for, whether or not
+		// it is still the one in force
+		if d := time.Until(at); d > -20*time.Millisecond {
+			time.Sleep(d + 20*time.Millisecond)
+		}
 		f.st[i].status = "done"
 		f.res[i] = "ENil"
-		f.armed = false
-		f.rdExpired = f.sc.DLSup
-		f.serveWakes()
+		if inForce {
+			f.passed = true
+			f.rdExpired = f.sc.DLSup
+			f.serveWakes()
+		}
 		return
 	}
 	blockedByLock := f.needsLock(i) && f.inside != -1 && f.inside != i
@@ -460,10 +497,12 @@ func (f *forced) advance(i int) {
 	}
 	f.arrived(i, e)
 	if a.Kind == "setdeadline" && e.point == "" {
+		// the call replaces the deadline in force
+		f.inForce = i
 		if a.Past {
-			f.armed, f.rdExpired = false, f.sc.DLSup
+			f.passed, f.rdExpired = true, f.sc.DLSup
 		} else {
-			f.armed, f.rdExpired = true, false
+			f.passed, f.rdExpired = false, false
 		}
 		f.serveWakes()
 	}
@@ -474,13 +513,18 @@ func (f *forced) advance(i int) {
 func runForced(sc *Scenario, choose func(depth int, enabled []int) int) *Outcome {
 	progress(sc)
 	n := len(sc.Actors)
+	for t := range sc.Actors {
+		if sc.Actors[t].Kind == "timer" {
+			sc.Actors[t].For = timerFor(sc, t)
+		}
+	}
 	o := &Outcome{Res: make([]string, n), afterClose: make([]bool, n)}
 	r, err := newRig(sc.DLSup, sc.Recv, sc.WS)
 	if err != nil {
 		o.Problems = append(o.Problems, Problem{"C10/setup", "could not build a ready session: " + err.Error()})
 		return o
 	}
-	f := &forced{sc: sc, o: o, c: newCtl(), r: r, st: make([]astate, n), res: make([]string, n), inside: -1, serve: -1}
+	f := &forced{sc: sc, o: o, c: newCtl(), r: r, st: make([]astate, n), res: make([]string, n), inside: -1, serve: -1, inForce: -1, shortAt: map[int]time.Time{}}
 	f.h = &handler{behave: map[string]*Pev{}, idx: map[string]int{}}
 	for i, a := range sc.Actors {
 		f.st[i].status = "new"
